@@ -161,7 +161,10 @@ pub fn next_op(rng: &mut Rng, w: &World, small: bool) -> Op {
                 }
             }
             4 => {
-                let c = raw_blocks(w, Some(true));
+                // Builds without debug assertions accept a shrink of a block that is not the most
+                // recent one (debug builds assert against it): it must leave everything as it is.
+                let inner = !cfg!(debug_assertions) && rng.chance(1, 3);
+                let c = raw_blocks(w, Some(!inner));
                 if c.is_empty() {
                     None
                 } else {
